@@ -293,3 +293,45 @@ func TestPropNoPatherRounds(t *testing.T) {
 		recNoPather.Eval(true, ev.Hash(m, uint64(dst)), func() any { return map[string]any{"clients": m, "destination": dst.String()} })
 	})
 }
+
+// A SCION daemon address that cannot be connected to (it does not resolve: no port, unknown port name, a host
+// name while DNS is not up): the service starts its Pather all the same. "The round reports an error when no path
+// is available" - the Pather must then offer no paths instead of taking the process down at start-up.
+var recBadDaemon = ev.New("c15/unreachable-daemon-rounds", "rapid: scion.StartPather with a daemon address that does not resolve (no port, unknown port name, empty host with a bad port) for 1..3 destination ISD-ASes, as the service starts it, then a round of the real MeasureClockOffsetSCION over the paths it offers. Oracle: StartPather returns without panicking, offers no paths, and the round reports an error. One evaluation = one start. Non-trivial: every case; distinct by (address, destinations)")
+
+func TestPropUnreachableDaemon(t *testing.T) {
+	lIA := ia(1, 0xff0000000110)
+	vt.Check(t, 20, 200, func(t *rapid.T) {
+		daemonAddr := rapid.SampledFrom([]string{"127.0.15.9", "127.0.15.9:nosuchport", ":x", "[::1", "127.0.15.9:99999"}).Draw(t, "daemon-address")
+		nd := rapid.IntRange(1, 3).Draw(t, "destinations")
+		var dsts []addr.IA
+		for i := 0; i < nd; i++ {
+			dsts = append(dsts, ia(uint16(2+i), 0xff0000000220+uint64(i)))
+		}
+		var p *scion.Pather
+		var perr any
+		func() {
+			defer func() { perr = recover() }()
+			ctx, cancel := context.WithTimeout(context.Background(), 2*time.Second)
+			defer cancel()
+			p = scion.StartPather(ctx, slog.New(slog.NewTextHandler(io.Discard, nil)), daemonAddr, dsts)
+		}()
+		if perr != nil {
+			t.Fatalf("starting the Pather with the daemon address %q (which cannot be connected to) panicked: %v", daemonAddr, perr)
+		}
+		ps := p.Paths(dsts[0])
+		if len(ps) != 0 {
+			t.Fatalf("a Pather without daemon connection offers %d paths", len(ps))
+		}
+		cs := []*client.SCIONClient{{Log: slog.New(slog.NewTextHandler(io.Discard, nil))}}
+		local := udp.UDPAddr{IA: lIA, Host: netlab.UDPAddr(netlab.Addr(1), 0)}
+		remote := udp.UDPAddr{IA: dsts[0], Host: netlab.UDPAddr(netlab.Addr(3), 10123)}
+		ctx, cancel := context.WithTimeout(context.Background(), 200*time.Millisecond)
+		_, _, merr := client.MeasureClockOffsetSCION(ctx, cs[0].Log, cs, local, remote, ps)
+		cancel()
+		if merr == nil {
+			t.Fatalf("a round without any path reported no error")
+		}
+		recBadDaemon.Eval(true, ev.Hash(daemonAddr, nd), func() any { return map[string]any{"daemon_address": daemonAddr, "destinations": nd} })
+	})
+}
